@@ -40,8 +40,8 @@ signet (`harness/flagsx`, corpus/C15/signet.s1.txt and signet.s2.txt):
   height (signet: 0 < 112402) an index without sat and address index never sees the
   transactions of the blocks in between, so runes etched there exist only with those indexes.
   This one is about the UNCHANGED `first_index_height` rule.  With the repair the rune half of the
-  statement is a theorem for every chain and every activation heights: `c15_fixed_runes_seen`
-  (stages `c15_fixed_first_index_height_le_first_rune_height`, `c15_fixed_sees_every_rune_block`,
+  statement is a theorem for every chain and every activation heights: `c15_fixed_runes_seen`,
+  `c15_fixed_runes_tracked` (stages `c15_fixed_first_index_height_le_first_rune_height`, `c15_fixed_sees_every_rune_block`,
   `c15_runes_untouched_below_first_rune_height`, `c15_runes_depend_on_rune_blocks_only`).
 
 What is proved (no bound on chains, blocks, transactions, values):
@@ -417,6 +417,19 @@ theorem c15_fixed_runes_seen (cfg cfg' : Cfg) (hsame : SameUpToOptionalIndexes c
   rw [runeRelevant_congr cfg cfg' hsame.2.1 hsame.2.2.2.2]
   rw [c15_seen_keeps_rune_blocks true cfg' (c15_fixed_first_index_height_le_first_rune_height cfg')]
 
+/-- … and the same with the node-fetch path specified by local tracking (`runTracked true`, the
+fold the driver of stream `signet` performs: a block below `first_index_height` is applied without
+the rune updater, the values of its outputs are kept).  Unlike `runSeen`, this run also succeeds on
+chains that spend, above `first_index_height`, outputs created below it (what the real index
+obtains from the node), so the theorem is not vacuous there (example below). -/
+theorem c15_fixed_runes_tracked (cfg cfg' : Cfg) (hsame : SameUpToOptionalIndexes cfg cfg')
+    (chain : List Block) (st st' : State) (evs evs' : List Event)
+    (h : runTracked true cfg chain = .ok (st, evs)) (h' : runTracked true cfg' chain = .ok (st', evs')) :
+    projRunes st = projRunes st' :=
+  projRunes_of_runeW (runTracked_runeW_eq true cfg cfg' hsame.2.1 hsame.2.2.2.2
+    (c15_fixed_first_index_height_le_first_rune_height cfg)
+    (c15_fixed_first_index_height_le_first_rune_height cfg') chain st st' evs evs' h h')
+
 /-- the same for whichever rule the source has, once the extractor reports the repair -/
 theorem c15_source_runes_seen (hfix : Generated.runesLowerFirstIndexHeight = true)
     (cfg cfg' : Cfg) (hsame : SameUpToOptionalIndexes cfg cfg')
@@ -506,6 +519,17 @@ example : SameUpToOptionalIndexes (w3Cfg true) (w3Cfg false) ∧
     (stateAfter' (runSeen false (w3Cfg false) w2Chain)).map (fun st => (projRunes st).runes) = some 1 ∧
     (run (w3Cfg true) (w2Chain.take 1)).isOk = true ∧ (w2Chain[0]?.map (·.height)) = some 0 :=
   ⟨⟨rfl, rfl, rfl, rfl, rfl⟩, by decide, by decide, by decide, by decide, by decide, by decide⟩
+
+/-- `c15_fixed_runes_tracked` where tracking matters: first inscription height 2, first rune height 1,
+so the repaired `first_index_height` of the configuration without sat index is 1; block 1 spends
+(and etches on) an output of block 0, which that configuration got header-only — `runSeen` fails
+there (the node would be asked), `runTracked` succeeds, and both configurations have the rune -/
+def w4Cfg (sats : Bool) : Cfg := ⟨sats, false, false, true, true, 2, 0, 1⟩
+example : SameUpToOptionalIndexes (w4Cfg true) (w4Cfg false) ∧ (w4Cfg false).firstIndexHeight true = some 1 ∧
+    (runSeen true (w4Cfg false) w2Chain).isOk = false ∧
+    (stateAfter' (runTracked true (w4Cfg false) w2Chain)).map (fun st => (projRunes st).runes) = some 1 ∧
+    (stateAfter' (runTracked true (w4Cfg true) w2Chain)).map (fun st => (projRunes st).runes) = some 1 :=
+  ⟨⟨rfl, rfl, rfl, rfl, rfl⟩, by decide, by decide, by decide, by decide⟩
 
 example : (w1Chain.map BlockShape).all id = true := by decide
 example : (w1Cfg true).base = w1Cfg false := rfl
